@@ -13,18 +13,33 @@ reg(Prop('C11', [
     Stream('c11.sem', 6000, 150000, 'oracle', timeout=900),
     Stream('c11.conv', 2500, 60000, 'oracle', timeout=900),
     Stream('c11.misuse', 200, 5000, 'spec'),
+    Stream('c11.glue', 3000, 120000, 'model', timeout=900,
+           exhaustive='composed writer model UnitGlueWr (UnitWr x OpWr x ListsWr): every reference kind (call_ref, variable_value, implicit_pointer, call, parameter_ref, '
+                      'deref_type, nested in entry_value) to every entry before / at / after the holder, in an Exprloc attribute and in two location lists of two shapes, '
+                      'with RangeListRef / LocationListRef / DebugInfoRef / UnitRef attributes, x versions 2-5 x both formats x 2 address sizes / byte orders x 3 child arrangements '
+                      'x second unit absent / before / after (4036 cases); compared: .debug_info, .debug_ranges, .debug_rnglists, .debug_loc, .debug_loclists after Dwarf::write '
+                      'and the three resolved fix-up lists (offset:size:value) observed through a recording Writer'),
 ], level='proof', design_ref='§5 C11',
     clauses=['form_size_write_len', 'form_size_write_decodes', 'offsets_exact', 'refs_resolve', 'roundtrip', 'unit_roundtrip',
              'abbrev_codes', 'abbrev_dedup', 'strings_add', 'strings_shared', 'strings_offset',
              'unencodable_is_error', 'encodable_is_ok', 'dangling_ref_is_error', 'dangling_ref_invalid_reference', 'patch_no_panic', 'file_index_roundtrip', 'fixups_all_resolve',
              'attr_read_by_reader', 'abbrevs_read_by_reader', 'unit_read_by_reader',
-             'base_types_first', 'base_types_first_perm', 'size_no_panic', 'write_no_panic', 'calc_no_panic', 'write_tree_no_panic'],
+             'base_types_first', 'base_types_first_perm', 'size_no_panic', 'write_no_panic', 'calc_no_panic', 'write_tree_no_panic',
+             'exprloc_attr_size_write', 'exprloc_attr_roundtrip', 'exprloc_forward_ref', 'glue_offsets_exact', 'glue_ref_is_mark', 'glue_ref_orphan', 'glue_ref_operand'],
     explored_only=[
         'model-level composition with the reader models is PROVED (attr_read_by_reader: Attr.parse_attribute; abbrevs_read_by_reader: AbbrevRd.parse_abbrevs; unit_read_by_reader: DieRd raw entry reader via Forest.enc_forest + C02 raw_is_preorder); the step from those reader models to gimli::read itself is C02/C03\'s correspondence plus this harness oracle — every case is read back '
         'with gimli\'s reader and its semantic dump (tags, nesting, attribute meanings, strings/ranges/locations/file names resolved, references as entry identities) '
         'is compared with the dump predicted from the script; written order = base types first; every DW_AT_sibling points behind its subtree',
-        'expression bytes, range/location list offsets and the line program offset are opaque parameters of the model (owned by C13/C15/C16); '
-        'their use by the unit writer is tied by the byte-level stream and the semantic oracle',
+        'expression bytes, range/location list offsets and the line program offset are opaque parameters of the model UnitWr (owned by C13/C15/C16); '
+        'their use by the unit writer is tied by the byte-level stream and the semantic oracle. '
+        'SINCE wrglue: for expressions and list offsets this is no longer exploration only — Model/UnitGlueWr.v instantiates the opaque Expression with OpWr '
+        '(size under the table built so far, write under the complete table, fix-ups at w.len()) and the list offsets with the ListsWr / location-list writers\' results; '
+        'PROVED: exprloc_attr_size_write (the x_size/x_out hypothesis discharged by C15 expr_size), exprloc_attr_roundtrip (C03 attribute reader + C07 decoder on the written attribute, '
+        'operations laid out from attribute position + prefix, fix-ups = those of that layout), exprloc_forward_ref, glue_offsets_exact (the composed calculate_offsets / write passes ARE '
+        'UnitWr.calc / write_die on one instantiated tree, so offsets_exact / roundtrip / unit_read_by_reader apply with die_expr_ok discharged; the table the expressions were written under '
+        'maps every tree entry to its DIE position), glue_ref_operand (end to end: the unit-relative operand of a typed op / call / parameter_ref = WMark position of its target minus the unit offset), glue_ref_is_mark / glue_ref_orphan; tied by stream c11.glue (bytes of five sections + three fix-up lists vs Dwarf::write). '
+        'Still opaque: the line program offset; still not composed in Coq: gunit_write / gtable_write as a whole (header, length patch, three write_debug_info_fixups passes over '
+        'several units) — their pieces are proved, the assembly is tied by c11.glue only',
         'cross-unit DebugInfoRef fix-ups: success implies every fix-up resolved (theorem); that the patched value is the target\'s position follows from offsets_exact per unit, '
         'the composition over the unit table is checked by the streams (1-4 units, Dwarf::write, incremental UnitTable::write, DwarfUnit::write); '
         'c11.conv: units converted and written one at a time through ConvertUnit::write (all / none / a subset) with the fix-ups left to the final Dwarf::write, '
@@ -41,7 +56,8 @@ reg(Prop('C11', [
                'reorder_base_types is the stable partition; size/write/calculate_offsets/write (tree) do not panic. '
                'The model is tied to gimli by byte-exact comparison of .debug_info/.debug_abbrev/.debug_str/.debug_line_str on ~16k (quick) / ~300k (thorough) generated API scripts '
                'plus gimli::read read-back of every case.',
-    level_note='Hypotheses that remain in the theorems: an Expression\'s predicted size equals the bytes it writes (C15), the unit fits 2^64 bytes, entry ids are unique '
+    level_note='(wrglue) In the glue theorems the hypothesis "an Expression\'s predicted size equals the bytes it writes" is discharged by C15 for every GExpr; it remains only for opaque UnitWr Exprloc values. Restrictions of the composed model: tree given after reorder_base_types, LineProgram::none(), no string tables, (follow-up) OpWr.debug_info_offset now mirrors gimli fix c42c00d: ids beyond the entries vector (reserved, never added) are forward-reference / InvalidReference errors in the model too, and c11.glue / c15.expr generate them. '
+               'Hypotheses that remain in the theorems: an Expression\'s predicted size equals the bytes it writes (C15), the unit fits 2^64 bytes, entry ids are unique '
                '(the arena is a tree), AttributeValue::String has no NUL (documented precondition). Trusted: the hand-written model (tied by differential execution only), '
                'Spec/UnitWrSpec.v as the meaning of DIE bytes, harness/src/c11.rs + dump.rs (script interpreter, predicted dump), OCaml glue computing list offsets for the '
                'restricted list shapes of the byte-level stream. Repaired in /repo after being found here: FileIndex numbered by the unit version instead of the line program version (c92c4f4), panic instead of Err for a reference to a reserved-never-added id beyond the entries vector (c42c00d); the model mirrors the repaired code. Known finding (listed): foreign-unit entry ids are detected only by debug_assert.',
